@@ -57,7 +57,10 @@ def spectral_clustering(H, k=2, max_iter=1_000, seed=None):
 
     # Compute normalize Laplacian and its spectra
     L, rowdict = normalized_hypergraph_laplacian(H, index=True)
-    evals, eigs = eigsh(L, k=k, which="SA")
+    # the start vector of the eigensolver is drawn from the seed as well, so that a
+    # seed determines the result
+    v0 = None if seed is None else np.random.default_rng(seed).uniform(-1, 1, L.shape[0])
+    evals, eigs = eigsh(L, k=k, which="SA", v0=v0)
 
     # Form metric space representation
     X = np.array(eigs)
